@@ -143,12 +143,12 @@ class Body:
 
     def reachable(self, start, avoid=(), through_edges=None):
         """Blocks reachable from `start` (iterable or int) along normal edges, never entering blocks in `avoid`.
-        `start` blocks themselves are included (even when in avoid)."""
+        `start` blocks themselves are included in the result; those that are in `avoid` are not expanded."""
         avoid = set(avoid)
         if isinstance(start, int):
             start = [start]
         seen = set(start)
-        stack = list(start)
+        stack = [s for s in start if s not in avoid]   # a start block that must be avoided is reported but not expanded
         while stack:
             b = stack.pop()
             for s in self.succ(b):
